@@ -8,6 +8,7 @@ import (
 	"os"
 	"time"
 
+	"github.com/blevesearch/bleve/v2/index/scorch/mergeplan"
 	rt "github.com/blevesearch/bleve/v2/internal/verifrt"
 	segment "github.com/blevesearch/scorch_segment_api/v2"
 )
@@ -27,6 +28,12 @@ func VerifH_C11_ScorchLifecycle() {
 	s.persisterOptions = &persisterOptions{NumPersisterWorkers: 1, MemoryPressurePauseThreshold: math.MaxUint64,
 		PersisterNapUnderNumFiles: rt.Choice("nap_under_num_files", 2), PersisterNapTimeMSec: rt.Choice("nap_msec", 2)}
 	s.forceMergeRequestCh = make(chan *mergerCtrl, 1)
+	// no automatic merges (a tier holds far more segments than the program creates): only the forced
+	// merges of the program merge, so that what a call does not depend on the background merger's pace
+	mpo := mergeplan.DefaultMergePlanOptions
+	mpo.MaxSegmentsPerTier = 1000
+	mpo.FloorSegmentSize = 1
+	s.mergePlannerOptions = &mpo
 	// the merger may be arbitrarily slow: in one variant it never gets to run at all, so that the
 	// persister's waits for it are exercised deterministically (natively too)
 	// (only with unsafe batches: a safe batch legitimately waits for a persister that waits for the merger)
@@ -40,7 +47,7 @@ func VerifH_C11_ScorchLifecycle() {
 	}
 	defer func() { verifMergeHook = nil }()
 	steps := rt.Param("steps", 3)
-	cancelled, mergedAfterCancel := false, false
+	cancelled, mergedAfterCancel, hookFired := false, false, false
 	nextID := byte('a')
 	for i := 0; i < steps; i++ {
 		nc := 3
@@ -62,6 +69,7 @@ func VerifH_C11_ScorchLifecycle() {
 			ctx, cancel := context.WithCancel(context.Background())
 			verifMergeHook = func() {
 				verifMergeHook = nil
+				hookFired = true
 				cancel()
 				time.Sleep(5 * time.Millisecond) // let the watcher of the context close the merge's cancel channel
 			}
@@ -76,6 +84,9 @@ func VerifH_C11_ScorchLifecycle() {
 	rt.Assert(s.Close() == nil, "Close returns")
 	rt.Assert(s.rootBolt == nil, "the metadata store is closed")
 	rt.Cover(mergedAfterCancel, "forced-merge-after-a-cancelled-one")
+	// (whether the cancellation arrives while the merge is being written depends on timing natively;
+	// symbolically both happen: checked once with cover points, not kept as replayed witnesses)
+	_ = hookFired
 	rt.Cover(rt.And(s.persisterOptions.PersisterNapUnderNumFiles == 1, nextID >= 'c'), "close-with-persister-pause-enabled")
 	_ = segment.ErrClosed
 }
